@@ -170,6 +170,7 @@ func cmdRun(args []string) int {
 	maxPaths := fs.Int("maxpaths", 0, "path limit")
 	maxSteps := fs.Int("maxsteps", 2_000_000, "instruction budget per path")
 	solver := fs.String("solver", "z3", "solver")
+	cross := fs.String("cross", "", "cross-check solver (cvc5, z3-new)")
 	verbose := fs.Bool("v", false, "print functions and stubs")
 	fs.Parse(args)
 	prog, st, _, err := loadProgram([]string{*dir})
@@ -189,7 +190,7 @@ func cmdRun(args []string) int {
 			cfg.SwitchOn[s] = true
 		}
 	}
-	ex := &sx.Explorer{P: prog, Cfg: cfg, Entry: entry, Workers: *workers, SolverKind: *solver, TimeoutMS: 20000, MaxPaths: *maxPaths}
+	ex := &sx.Explorer{P: prog, Cfg: cfg, Entry: entry, Workers: *workers, SolverKind: *solver, TimeoutMS: 20000, MaxPaths: *maxPaths, CrossSolver: *cross}
 	rep := ex.Run()
 	printReport(rep, *verbose)
 	if len(rep.Violations) > 0 {
